@@ -13,6 +13,13 @@
 (* lazily in the first run, remembered in orc and re-used in the second.  PermutationInvariance*)
 (* compares the two results.                                                                   *)
 (*                                                                                             *)
+(* Breakpoints: every problem has NBk breakpoints that a fit may drop (status -1).  A dropping  *)
+(* fit chooses, step by step, every non-empty proper subset of the breakpoints in effect (what  *)
+(* is left is fitted again); up to MaxDrops fits of a run drop.  The oracle - status, dropped    *)
+(* breakpoints and residuals - is a function of (set of points fitted, breakpoints in effect):   *)
+(* in pair mode it is remembered under that key, so the second run (same data, other order)      *)
+(* meets the same drops and the same residuals on the reduced breakpoint set.                    *)
+(*                                                                                             *)
 (* Configurations: MC_IterFit_quick (n=3, all orders, residuals {-4,0,6}, limits beyond / at),  *)
 (* MC_IterFit_thorough (n=3, all orders, 5 residual values, 3 limit pairs), MC_IterFit_chains_  *)
 (* thorough (n=4,5, every Beyond function, up to 5 fits), MC_IterFit_pair_{quick,thorough}      *)
@@ -27,9 +34,10 @@ CONSTANTS Mode,       \* "single" or "pair"
           MaxIters,   \* set of maxiter values
           MaxDrops,   \* how many fits of a run may report "breakpoints dropped" (-1)
           WithFail,   \* BOOLEAN: also let a fit fail outright
+          NBk,        \* number of (droppable) breakpoints of every problem
           MinGood
 VARIABLES first,      \* pair mode: result of the first run ("none" before)
-          orc         \* pair mode: oracle answers given so far: set of [mask, z]
+          orc         \* pair mode: oracle answers given so far: set of [mask, bk, st, d, z] (key: mask, bk)
 
 mvars == <<vars, first, orc>>
 (* residual alphabets (a configuration file cannot hold negative numbers) *)
@@ -41,7 +49,7 @@ ThrSym  == {<<5, 5>>}
 ThrQuick == {<<3, 5>>, <<4, 6>>, <<5, 5>>}\* with Res3: -4 and 6 beyond both limits / exactly at both limits
 ThrAsym == {<<5, 5>>, <<3, 7>>}
 ThrAll  == {<<5, 5>>, <<3, 7>>, <<7, 3>>}
-None == [pc |-> "none", curveOf |-> {}, points |-> {}, nfit |-> 0]
+None == [pc |-> "none", curveOf |-> {}, points |-> {}, nfit |-> 0, bk |-> {}, curveBk |-> {}]
 
 Id(n)  == [i \in 1..n |-> i]
 Rev(n) == [i \in 1..n |-> n + 1 - i]
@@ -52,7 +60,7 @@ PermSet(n) == IF PermSel = "all" THEN Permutations(1..n)
 
 Problem(n, perm, g, thr, mi) ==
   [n |-> n, perm |-> perm, cpos |-> {c \in 1..n : perm[c] \in g}, lower |-> thr[1], upper |-> thr[2],
-   band |-> 0, maxiter |-> mi, mingood |-> MinGood]
+   band |-> 0, maxiter |-> mi, mingood |-> MinGood, nbk |-> NBk]
 
 Init == /\ \E n \in Ns : \E perm \in PermSet(n) : \E g \in SUBSET (1..n) : \E thr \in Thrs : \E mi \in MaxIters :
              InitWith(Problem(n, perm, g, thr, mi))
@@ -62,32 +70,45 @@ ZChoices(m) == {z \in [1..prob.n -> ResVals \cup OffVals] :
                   \A i \in 1..prob.n : IF i \in m THEN z[i] \in ResVals ELSE z[i] \in OffVals}
 Drops == Len(SelectSeq(hist, LAMBDA e : e.a = "fit" /\ e.st = -1))
 
-Known == {o \in orc : o.mask = work}
-RejectStep ==
+(* the oracle is keyed by the set fitted AND the breakpoints in effect *)
+Answer(st, d, z) == [mask |-> work, bk |-> bk, st |-> st, d |-> d, z |-> z]
+Known == {o \in orc : o.mask = work /\ o.bk = bk}
+DropChoices == IF Drops < MaxDrops THEN (SUBSET bk) \ {{}, bk} ELSE {}
+FitStep ==
   IF Mode = "pair" /\ Known # {}
-  THEN /\ \E o \in Known : Reject(o.z, SureBeyond(prob, work, o.z))
+  THEN /\ \E o \in Known : Fit(o.st, o.d)
        /\ UNCHANGED <<first, orc>>
-  ELSE /\ \E z \in ZChoices(work) : /\ Reject(z, SureBeyond(prob, work, z))
-                                    /\ orc' = IF Mode = "pair" THEN orc \cup {[mask |-> work, z |-> z]} ELSE orc
+  ELSE /\ \/ Fit(0, {}) /\ UNCHANGED orc
+          \/ \E d \in DropChoices : /\ Fit(-1, d)
+                                     /\ orc' = IF Mode = "pair" THEN orc \cup {Answer(-1, d, <<>>)} ELSE orc
+       /\ UNCHANGED first
+RejectStep ==
+  IF Mode = "pair" /\ \E o \in Known : o.st = 0 /\ o.z # <<>>
+  THEN /\ \E o \in Known : o.st = 0 /\ o.z # <<>> /\ Reject(o.z, SureBeyond(prob, work, o.z), o.bk)
+       /\ UNCHANGED <<first, orc>>
+  ELSE /\ \E z \in ZChoices(work) : /\ Reject(z, SureBeyond(prob, work, z), bk)
+                                    /\ orc' = IF Mode = "pair" THEN orc \cup {Answer(0, {}, z)} ELSE orc
        /\ UNCHANGED first
 
 (* pair mode: the same data handed over in another order *)
 Restart ==
   /\ Mode = "pair" /\ Finished /\ first = None
-  /\ first' = [pc |-> pc, curveOf |-> curveOf, points |-> {prob.perm[c] : c \in outmask}, nfit |-> Len(Fits(hist))]
+  /\ first' = [pc |-> pc, curveOf |-> curveOf, points |-> {prob.perm[c] : c \in outmask}, nfit |-> Len(Fits(hist)),
+                  bk |-> bk, curveBk |-> curveBk]
   /\ \E perm \in Permutations(1..prob.n) :
        prob' = [prob EXCEPT !.perm = perm, !.cpos = {c \in 1..prob.n : perm[c] \in Good(prob)}]
   /\ pc' = "start" /\ xsort' = <<>> /\ work' = {} /\ iter' = 0 /\ status' = 0
   /\ qdone' = FALSE /\ curveOf' = {} /\ outmask' = {} /\ hist' = <<>>
+  /\ bk' = 1..prob.nbk /\ curveBk' = {}
   /\ UNCHANGED orc
 
 Next ==
   \/ /\ \/ Sort
-        \/ \E st \in {0} \cup (IF Drops < MaxDrops THEN {-1} ELSE {}) : Fit(st)
         \/ WithFail /\ FitFails
         \/ Mode = "single" /\ SkipReject
         \/ LoopOrExit \/ Unsort \/ Return
      /\ UNCHANGED <<first, orc>>
+  \/ FitStep
   \/ RejectStep
   \/ Restart
   \/ (Finished /\ (Mode = "single" \/ first # None) /\ UNCHANGED mvars)
@@ -109,4 +130,8 @@ C10_PermutationInvariance ==
      /\ pc = "done" => /\ curveOf = first.curveOf
                        /\ {prob.perm[c] : c \in outmask} = first.points
                        /\ Len(Fits(hist)) = first.nfit
+                       /\ bk = first.bk /\ curveBk = first.curveBk
+C10_BreakpointsOnlyShrink == BreakpointsOnlyShrink
+C10_ResidualsOnBreakpointsInEffect == ResidualsOnBreakpointsInEffect
+C10_ReturnedCurveOnReturnedBreakpoints == ReturnedCurveOnReturnedBreakpoints
 =============================================================================
